@@ -173,6 +173,31 @@ def run(F, rep, tier):
     rep.analysed["ambient_calls_in_carve_out"] = namb
 
 
+def scope_neutral_premise(F, rep, crate, floor):
+    """R13.1 for the bodies of one crate (used by C04: boxed contexts / invocations / function definitions must leave the scope as they found it)"""
+    r1 = rep.rule("R13.1", "every evaluator closure / evaluation function is scope-neutral: net depth change 0 on every normal return, never pops below its entry depth")
+    G = callgraph.CallGraph(F)
+    A = g3_scope.ScopeAnalysis(F, G)
+    for n, b in F.bodies.items():
+        if b["_crate"].split(".")[0] == crate:
+            A.summary(n)
+    touching = {n: s for n, s in A.summaries.items() if s.touches and F.bodies[n]["_crate"].split(".")[0] == crate}
+    for n, s in sorted(touching.items()):
+        b = F.bodies[n]
+        for pr in s.problems:
+            rep.violation(r1, "%s:%s" % (n, pr[0]), "%s: %s" % (n, pr[2]), "%s:%s" % (b["file"], pr[1]))
+        if s.deltas <= {0} and s.min >= 0:
+            rep.ok(r1, n, "net 0, min depth %d" % s.min)
+        else:
+            what = []
+            if not s.deltas <= {0}:
+                what.append("returns with the scope depth changed by %s" % sorted(s.deltas - {0}))
+            if s.min < 0:
+                what.append("pops %d context(s) below its entry depth" % -s.min)
+            rep.violation(r1, n, "%s %s: the next evaluation with this scope sees different contexts" % (n, " and ".join(what)), "%s:%s" % (b["file"], b["line"]))
+    rep.floor(r1, "bodies of %s touching an external scope" % crate, len(touching), floor)
+
+
 def capture_rule(F, G, rep, r5, floor):
     """evaluator closures (closures whose call is deferred: stored and invoked at evaluation time) capture no interior-mutable state except the
     registries behind RwLocks: a value computed by one evaluation cannot be kept for - or seen by - another one"""
